@@ -175,17 +175,18 @@ func operations() []operation {
 	var ops []operation
 	// operation alphabet: every document with the operations that can tell it apart from the others
 	keep := map[string][]string{
-		"a.pdf":       {"Text", "ToMarkdown", "Text.xhf", "Chunks.JSONL", "Chunks.CSV"},
-		"pending.pdf": {"Text"},
-		"broken.pdf":  {"Text"},
-		"badkid.pdf":  {"Text"},
-		"ties.pdf":    {"Text", "ToMarkdown", "Chunks.JSONL", "Chunks.CSV"},
-		"widths.pdf":  {"Text", "ToMarkdown"},
-		"forms.pdf":   {"Text", "ToMarkdown"},
-		"hf.pdf":      {"Text", "Text.xhf", "ToMarkdown"},
-		"a.docx":      {"Text", "ToMarkdown", "Chunks.JSONL", "Chunks.CSV"},
-		"a.xlsx":      {"Text", "ToMarkdown", "Chunks.CSV"},
-		"a.pptx":      {"Text", "ToMarkdown", "Chunks.CSV"},
+		"a.pdf":        {"Text", "ToMarkdown", "Text.xhf", "Chunks.JSONL", "Chunks.CSV"},
+		"pending.pdf":  {"Text"},
+		"broken.pdf":   {"Text"},
+		"badkid.pdf":   {"Text"},
+		"ties.pdf":     {"Text", "ToMarkdown", "Chunks.JSONL", "Chunks.CSV"},
+		"widths.pdf":   {"Text", "ToMarkdown"},
+		"forms.pdf":    {"Text", "ToMarkdown"},
+		"hf.pdf":       {"Text", "Text.xhf", "ToMarkdown"},
+		"samebase.pdf": {"Text"},
+		"a.docx":       {"Text", "ToMarkdown", "Chunks.JSONL", "Chunks.CSV"},
+		"a.xlsx":       {"Text", "ToMarkdown", "Chunks.CSV"},
+		"a.pptx":       {"Text", "ToMarkdown", "Chunks.CSV"},
 	}
 	for _, d := range docNames() {
 		for _, o := range extractorOps(d) {
